@@ -52,6 +52,7 @@ type sysPend struct { // a set handed to the bridge of a worker
 	broker  int
 	ids     []int
 	handed  bool // the handover choice has been emitted
+	skipped bool // handed over before this partition knew the worker
 	done    bool // the broker choice has been emitted
 }
 
@@ -66,50 +67,30 @@ func kindOfFlags(fl int) string {
 }
 
 // sysPlan is the static part of the translation: which model worker every leader lookup selects and which
-// hook-event worker tag is which model worker.
+// hook-event worker tag is which model worker.  A model worker IS a real brokerProducer (its tag): a worker that
+// is shared with other partitions stays alive when this partition releases it and is found again by the next
+// lookup, so a partition can select the same worker repeatedly.
 type sysPlan struct {
-	lksAt   map[int][]string // index of a pp.recv event -> results of the leader lookups of that step
-	fwdTo   map[sysKey]int   // (id, retries) of a forwarded data token -> model worker
-	tagW    map[int]int      // worker tag (broker*4096+serial) -> model worker
-	workers int
+	lksAt    map[int][]string // index of a pp.recv event -> results of the leader lookups of that step
+	tagW     map[int]int      // worker tag (broker*4096+serial) -> model worker
+	activeAt map[int]int      // worker tag -> index of the pp.recv event of this partition's first lookup that found it
+	workers  int              // number of successful lookups
 }
 
 func sysMakePlan(res *Result, P int) (*sysPlan, string) {
 	ev := res.Events
-	pl := &sysPlan{lksAt: map[int][]string{}, fwdTo: map[sysKey]int{}, tagW: map[int]int{}}
-	cnt := map[int]int{}
-	order := map[int][]int{} // broker -> model workers in allocation order
-	alloc := func(i int) int {
-		for j := i + 1; j < len(ev); j++ {
-			if ev[j].Kind == "pp.fwd" && ev[j].P == P {
-				b := ev[j].B
-				if cnt[b] >= 64 {
-					return -2
-				}
-				w := b*64 + cnt[b]
-				cnt[b]++
-				order[b] = append(order[b], w)
-				pl.workers++
-				return w
-			}
+	pl := &sysPlan{lksAt: map[int][]string{}, tagW: map[int]int{}, activeAt: map[int]int{}}
+	// which worker received a forwarded data token
+	recvTag := map[sysKey]int{}
+	for _, e := range ev {
+		if e.Kind == "bp.recv" && e.P == P && kindOfFlags(e.A%8) == "d" {
+			recvTag[sysKey{e.ID, e.A / 8}] = e.B
 		}
-		return -1
 	}
-	cur, prefetch, pending, curRecv := -1, -1, -1, -1
+	cnt := map[int]int{}
+	cur, curRecv := -1, -1
 	for i, e := range ev {
 		switch e.Kind {
-		case "wg.add.syn":
-			if e.A == P {
-				w := alloc(i)
-				if w == -2 {
-					return nil, "too-many-workers"
-				}
-				if e.B == 0 {
-					prefetch = w
-				} else {
-					pending = w
-				}
-			}
 		case "pp.recv":
 			if e.P == P {
 				curRecv = i
@@ -124,69 +105,38 @@ func sysMakePlan(res *Result, P int) (*sysPlan, string) {
 				cur = -1
 			}
 		case "pp.fwd":
-			if e.P == P {
-				if cur < 0 {
-					if pending >= 0 {
-						cur, pending = pending, -1
-					} else if prefetch >= 0 {
-						cur, prefetch = prefetch, -1
-					} else {
-						return nil, "forward-without-worker"
+			if e.P != P {
+				continue
+			}
+			T, ok := recvTag[sysKey{e.ID, e.A}]
+			if !ok {
+				return nil, "forward-not-received"
+			}
+			if cur < 0 {
+				cur = T
+				w, known := pl.tagW[T]
+				if !known {
+					b := T / 4096
+					if cnt[b] >= 64 {
+						return nil, "too-many-workers"
 					}
-					pl.lksAt[curRecv] = append(pl.lksAt[curRecv], strconv.Itoa(cur))
+					w = b*64 + cnt[b]
+					cnt[b]++
+					// the partition's view of the worker starts with the run: it may hold the worker (prefetched at
+					// its start) long before its first message, and what happens to the worker meanwhile - a
+					// connection error caused by another partition's request closes it - is part of that view
+					pl.tagW[T], pl.activeAt[T] = w, -1
 				}
-				pl.fwdTo[sysKey{e.ID, e.A}] = cur
+				pl.workers++
+				pl.lksAt[curRecv] = append(pl.lksAt[curRecv], strconv.Itoa(w))
+			} else if cur != T {
+				return nil, "worker-binding-ambiguous"
 			}
 		case "pp.fail":
 			if e.P == P {
 				pl.lksAt[curRecv] = append(pl.lksAt[curRecv], "n")
 			}
 		}
-	}
-	// bind the worker tags
-	bound, ignored := map[int]bool{}, map[int]bool{}
-	for _, e := range ev {
-		if e.Kind != "bp.recv" || e.P != P {
-			continue
-		}
-		T := e.B
-		k := kindOfFlags(e.A % 8)
-		want, known := -1, false
-		if k == "d" {
-			want, known = pl.fwdTo[sysKey{e.ID, e.A / 8}]
-		}
-		if w, ok := pl.tagW[T]; ok {
-			if known && w != want {
-				return nil, "worker-binding-ambiguous"
-			}
-			continue
-		}
-		if ignored[T] {
-			if k != "s" {
-				return nil, "worker-binding-ambiguous"
-			}
-			continue
-		}
-		w := -1
-		if known {
-			w = want
-		} else {
-			for _, c := range order[T/4096] {
-				if !bound[c] {
-					w = c
-					break
-				}
-			}
-		}
-		if w < 0 && k == "s" {
-			// a worker selected while flushing an empty retry level at the end of the run: it gets the syn and nothing else
-			ignored[T] = true
-			continue
-		}
-		if w < 0 || bound[w] {
-			return nil, "worker-binding-ambiguous"
-		}
-		pl.tagW[T], bound[w] = w, true
 	}
 	return pl, ""
 }
@@ -247,7 +197,7 @@ func SysLinesX(res *Result, part int32) (ops []string, workers int, early int, n
 		return len(ev)
 	}
 	submitted := map[int]bool{}
-	synPushed := map[int]bool{}
+	synPushed, synTaken := map[int]int{}, map[int]int{}
 	deferred := map[int][]string{}
 	waitTok := map[int]int{}
 	var pends []*sysPend
@@ -311,7 +261,9 @@ func SysLinesX(res *Result, part int32) (ops []string, workers int, early int, n
 		for i, e := range ev {
 			switch e.Kind {
 			case "bp.sent":
-				open[e.A] = append(open[e.A], e.ID)
+				if e.P == P {
+					open[e.A] = append(open[e.A], e.ID)
+				}
 			case "bp.sent.end":
 				sentGroups[e.A] = append(sentGroups[e.A], open[e.A])
 				sentEnd[e.A] = append(sentEnd[e.A], i)
@@ -420,9 +372,12 @@ func SysLinesX(res *Result, part int32) (ops []string, workers int, early int, n
 			emit("ppRecv %d %d %s %s", e.ID, e.A, kindOfFlags(e.B), lks)
 			for _, x := range pl.lksAt[i] {
 				if w, err := strconv.Atoi(x); err == nil {
-					synPushed[w] = true
-					ops = append(ops, deferred[w]...)
-					deferred[w] = nil
+					synPushed[w]++
+					for len(deferred[w]) > 0 && synTaken[w] < synPushed[w] {
+						ops = append(ops, deferred[w][0])
+						deferred[w] = deferred[w][1:]
+						synTaken[w]++
+					}
 				}
 			}
 		case "bp.recv":
@@ -434,8 +389,9 @@ func SysLinesX(res *Result, part int32) (ops []string, workers int, early int, n
 			k := kindOfFlags(e.A % 8)
 			if k == "s" {
 				line := fmt.Sprintf("sys bpRecv %d 0 0 s 0", w)
-				if synPushed[w] {
+				if synTaken[w] < synPushed[w] && len(deferred[w]) == 0 {
 					ops = append(ops, line)
+					synTaken[w]++
 				} else {
 					deferred[w] = append(deferred[w], line)
 				}
@@ -469,24 +425,52 @@ func SysLinesX(res *Result, part int32) (ops []string, workers int, early int, n
 			if pd == nil {
 				continue
 			}
+			curPend[e.A] = pd
+			if a, ok := pl.activeAt[e.A]; !ok || a > i {
+				// a set of a shared worker handed over before this partition first selected the worker: it holds
+				// nothing of this partition and the partition's model of the worker does not exist yet
+				pd.skipped = true
+				continue
+			}
 			if !pd.handed {
+				if len(pd.ids) == 0 {
+					emit("spur %d", pd.w) // a set without a message of this partition
+				}
 				emit("handover %d", pd.w)
 				pd.handed = true
 			}
-			curPend[e.A] = pd
 		case "bp.resp.end":
 			T := e.A
 			w, ok := pl.tagW[T]
 			if !ok {
 				continue
 			}
-			if pd := curPend[T]; pd != nil {
-				if pd.reqNo < 1<<30 {
-					flushUpTo(pd.reqNo, i)
-				}
-				issue(pd)
-				delete(curPend, T)
+			pd := curPend[T]
+			delete(curPend, T)
+			if pd == nil {
+				continue
 			}
+			if pd.skipped {
+				if a, ok := pl.activeAt[T]; !ok || a > i {
+					continue
+				}
+				// the partition selected the worker while that set was in flight
+				if _, has := waitTok[T]; has {
+					return nil, 0, 0, "projection-late-activation"
+				}
+				if pd.verdict != "conn" {
+					continue // the answer touches nothing of this partition
+				}
+				// a connection error: the worker closes and bounces what it holds of this partition - in the
+				// one-partition model: it hands over what it has, the request fails, the answer is delivered
+				emit("spur %d", pd.w)
+				emit("handover %d", pd.w)
+				pd.handed = true
+			}
+			if pd.reqNo < 1<<30 {
+				flushUpTo(pd.reqNo, i)
+			}
+			issue(pd)
 			still := 0
 			if wt, has := waitTok[T]; has {
 				still = 1
